@@ -174,12 +174,10 @@ pub(crate) fn parse_date_part(
             }
             _ => {
                 if string.starts_with("Before Christ") {
-                    // Using unwrap because it's safe to assume that the string is long enough
-                    remove_part("Before Christ".len(), string).unwrap();
+                    remove_part("Before Christ".len(), string)?;
                     None
                 } else if string.starts_with("Anno Domini") {
-                    // Using unwrap because it's safe to assume that the string is long enough
-                    remove_part("Anno Domini".len(), string).unwrap();
+                    remove_part("Anno Domini".len(), string)?;
                     None
                 } else {
                     return Err(create_invalid_format(format!(
@@ -208,9 +206,10 @@ pub(crate) fn parse_date_part(
             }
             1 | 3 | 4 => {
                 let mut year_length = usize::from(string.starts_with('-'));
-                let string_length = string.chars().count();
-                while string_length > year_length
-                    && string.chars().nth(year_length).unwrap().is_ascii_digit()
+                while string
+                    .chars()
+                    .nth(year_length)
+                    .map_or(false, |char| char.is_ascii_digit())
                 {
                     year_length += 1;
                 }
@@ -247,8 +246,7 @@ pub(crate) fn parse_date_part(
             4 => {
                 for quarter in ["1st quarter", "2nd quarter", "3rd quarter", "4th quarter"] {
                     if string.starts_with(quarter) {
-                        // Using unwrap because it's safe to assume that the string is long enough
-                        remove_part(quarter.len(), string).unwrap();
+                        remove_part(quarter.len(), string)?;
                         return Ok(None);
                     };
                 }
@@ -266,8 +264,7 @@ pub(crate) fn parse_date_part(
         'w' => match chars.len() {
             1 => match string.chars().nth(1) {
                 Some(char) if char.is_ascii_digit() => {
-                    // Using unwrap because it's safe to assume that the string is long enough
-                    remove_part(2, string).unwrap();
+                    remove_part(2, string)?;
                     None
                 }
                 _ => {
@@ -311,8 +308,7 @@ pub(crate) fn parse_date_part(
         'D' => match chars.len() {
             2 => match string.chars().nth(2) {
                 Some(char) if char.is_ascii_digit() => {
-                    // Using unwrap because it's safe to assume that the string is long enough
-                    let day = pick_part::<u32>(3, string, "day of year").unwrap();
+                    let day = pick_part::<u32>(3, string, "day of year")?;
 
                     Some(ParsedPart {
                         value: day as i64,
@@ -339,8 +335,7 @@ pub(crate) fn parse_date_part(
             _ => match string.chars().nth(1) {
                 Some(char) if char.is_ascii_digit() => match string.chars().nth(2) {
                     Some(char) if char.is_ascii_digit() => {
-                        // Using unwrap because it's safe to assume that the string is long enough
-                        let day = pick_part::<u32>(3, string, "day of year").unwrap();
+                        let day = pick_part::<u32>(3, string, "day of year")?;
 
                         Some(ParsedPart {
                             value: day as i64,
@@ -348,8 +343,7 @@ pub(crate) fn parse_date_part(
                         })
                     }
                     _ => {
-                        // Using unwrap because it's safe to assume that the string is long enough
-                        let day = pick_part::<u32>(2, string, "day of year").unwrap();
+                        let day = pick_part::<u32>(2, string, "day of year")?;
 
                         Some(ParsedPart {
                             value: day as i64,
@@ -447,8 +441,7 @@ pub(crate) fn parse_time_part(
             4 => {
                 for (n, period) in ["a.m.", "midnight", "p.m.", "noon"].iter().enumerate() {
                     if string.starts_with(period) {
-                        // Using unwrap because it's safe to assume that the string is long enough
-                        remove_part(period.len(), string).unwrap();
+                        remove_part(period.len(), string)?;
                         return Ok(Some(ParsedPart {
                             value: if n <= 1 { 0 } else { 1 },
                             unit: ParseUnit::Period,
@@ -463,8 +456,7 @@ pub(crate) fn parse_time_part(
             5 => {
                 for (n, period) in ["a", "mi", "p", "n"].iter().enumerate() {
                     if string.starts_with(period) {
-                        // Using unwrap because it's safe to assume that the string is long enough
-                        remove_part(period.len(), string).unwrap();
+                        remove_part(period.len(), string)?;
                         return Ok(Some(ParsedPart {
                             value: if n <= 1 { 0 } else { 1 },
                             unit: ParseUnit::Period,
@@ -482,8 +474,7 @@ pub(crate) fn parse_time_part(
                     .enumerate()
                 {
                     if string.starts_with(period) {
-                        // Using unwrap because it's safe to assume that the string is long enough
-                        remove_part(period.len(), string).unwrap();
+                        remove_part(period.len(), string)?;
                         return Ok(Some(ParsedPart {
                             value: if n <= 2 { 0 } else { 1 },
                             unit: ParseUnit::Period,
@@ -713,8 +704,7 @@ fn parse_month(length: usize, string: &mut String) -> Result<Option<ParsedPart>,
         3 => {
             for (n, month) in MONTH_ABBREVIATED.iter().enumerate() {
                 if string.starts_with(month) {
-                    // Using unwrap because it's safe to assume that the string is long enough
-                    remove_part(month.len(), string).unwrap();
+                    remove_part(month.len(), string)?;
                     return Ok(Some(ParsedPart {
                         value: (n + 1) as i64,
                         unit: ParseUnit::Month,
@@ -733,8 +723,7 @@ fn parse_month(length: usize, string: &mut String) -> Result<Option<ParsedPart>,
         _ => {
             for (n, month) in MONTH_WIDE.iter().enumerate() {
                 if string.starts_with(month) {
-                    // Using unwrap because it's safe to assume that the string is long enough
-                    remove_part(month.len(), string).unwrap();
+                    remove_part(month.len(), string)?;
                     return Ok(Some(ParsedPart {
                         value: (n + 1) as i64,
                         unit: ParseUnit::Month,
@@ -758,8 +747,7 @@ fn parse_wday(length: usize, string: &mut String) -> Result<Option<ParsedPart>, 
         4 => {
             for wday in WDAY_WIDE {
                 if string.starts_with(wday) {
-                    // Using unwrap because it's safe to assume that the string is long enough
-                    remove_part(wday.len(), string).unwrap();
+                    remove_part(wday.len(), string)?;
                     return Ok(None);
                 };
             }
@@ -871,11 +859,9 @@ fn parse_zone(
         },
         5 => match string.chars().nth(4) {
             Some(char) if char.is_ascii_digit() => {
-                // Using unwrap because it's safe to assume that the string is long enough
-                remove_part(1, string).unwrap();
+                remove_part(1, string)?;
                 let minute = pick_part::<u32>(2, string, "timezone minute")?;
-                // Using unwrap because it's safe to assume that the string is long enough
-                remove_part(1, string).unwrap();
+                remove_part(1, string)?;
                 let second = pick_part::<u32>(2, string, "timezone second")?;
 
                 let offset = (hour * SECS_PER_HOUR_U64 as u32
